@@ -84,6 +84,25 @@ def r11c(ctx, rep, rule="R11c"):
         else:
             rep.ok(rule, key, "all %d characters dispatched to scan_simple_token have an arm there%s" % (
                 len(disp), (" (unreachable arms: %s)" % [chr(c) for c in extra]) if extra else ""), [sst.span])
+    # the tables above are tables over the character *as read*: a dispatch on a mapped character (case folding etc.)
+    # accepts more spellings than its arms list
+    for fn_ in (scan, sst, facts.fn("marwood::lex::scan_hash_token")):
+        if fn_ is None:
+            continue
+        for bb, arms, other, t in char_switches(fn_):
+            o = fn_.origin(t["op"])
+            mapped = None
+            if o[0] == "call":
+                c_ = callee(o[1]) or ""
+                if "char::methods" in c_ or c_.startswith(("core::char", "std::char")) or c_.rsplit("::", 1)[-1].startswith(("to_", "from_")):
+                    mapped = c_
+            key = "%s|raw-dispatch|%s" % (rule, fn_.short.rsplit("::", 1)[-1])
+            if mapped:
+                rep.fail(rule, key, "%s dispatches on %s(c), not on the character as read: spellings outside its arm list reach "
+                         "the arms (e.g. upper-case #X reaches the NumberPrefix arm) and the handler behind the table has no case "
+                         "for them" % (fn_.short, short_path(mapped)), [t["loc"]] if "loc" in t else [fn_.span])
+            else:
+                rep.ok(rule, key, "%s dispatches on the character as read" % fn_.short, [fn_.span], nontrivial=False)
     sht = need(rep, rule, facts, "marwood::lex::scan_hash_token")
     pn = need(rep, rule, facts, "marwood::parse::parse_number")
     if sht is not None and pn is not None:
